@@ -144,6 +144,16 @@ type BigReg struct {
 	Heap bool   `json:"heap,omitempty"`
 }
 
+// Ref names a generated run: (workload, mode, seed, run, tier) determine its
+// plan completely.
+type Ref struct {
+	Workload string `json:"workload"`
+	Mode     string `json:"mode,omitempty"`
+	Seed     uint64 `json:"seed"`
+	Run      uint64 `json:"run"`
+	Tier     string `json:"tier,omitempty"`
+}
+
 // Plan is one simulated run.
 type Plan struct {
 	V        int               `json:"v"`
@@ -161,6 +171,12 @@ type Plan struct {
 	Schedule *Schedule         `json:"schedule,omitempty"`
 	BigRegs  []BigReg          `json:"bigregs,omitempty"`
 	BigSteps []BigStep         `json:"bigsteps,omitempty"`
+	// Prelude: runs executed earlier by the same worker process, to be
+	// re-executed (in this order, in the same fresh process) before this plan.
+	// Only needed when the tree under test keeps state across calls, so that a
+	// failure depends on what the process did before (then the single plan does
+	// not reproduce it and the driver adds the prelude).
+	Prelude []Ref `json:"prelude,omitempty"`
 	// Filled in when a violation is recorded.
 	Class   string          `json:"class,omitempty"`
 	Detail  string          `json:"detail,omitempty"`
